@@ -187,7 +187,13 @@ func checkC14(c *Ctx, r *Report) {
 				return fromFail && (b == call.Block() || reachableInstr(first, call, nil))
 			}
 			recv := callArgs(call)[0]
-			if def, ok := resolveVal(recv).(ssa.Instruction); !ok || !inCycle(def.Block()) {
+			def, isInstr := resolveVal(recv).(ssa.Instruction)
+			sameLockAgain := !isInstr
+			if isInstr {
+				// a way back to the TryLock that does not pass the computation of its operand?
+				sameLockAgain = len(walkFrom(pos{failBlk, 0}, func(in ssa.Instruction) bool { return in == def }, func(in ssa.Instruction) bool { return in == ssa.Instruction(call) }, nil)) > 0
+			}
+			if sameLockAgain {
 				bad = append(bad, "the failed TryLock is repeated on the same lock (its operand is not recomputed before the retry)")
 			}
 			// (b) no exit test of a loop around the TryLock depends on something done only on the failure branch
